@@ -245,3 +245,136 @@ func VerifC14Parse() {
 	}
 	vAssert(ip.pattern == want, "the match pattern is the normalised pattern without '!', leading and trailing slash")
 }
+
+// ---------- (c) ----------
+
+// verifC14Patterns is the restricted grammar sample: literals, '*', '?',
+// '**', a character class, anchoring, inner slash, trailing slash.
+var verifC14Patterns = []string{
+	"a", "/a", "a/", "/a/", "a/b", "/a/b", "a/b/",
+	"*", "a*", "*a", "?", "a?", "[ab]", "/*", "*/",
+	"**", "**/a", "a/**", "a/**/b", "*/a", "a/*", "**/",
+}
+
+// verifC14Comp matches one path component against one pattern component
+// (literal bytes, '*', '?', '[set]').
+func verifC14Comp(p, s string) bool {
+	if p == "" {
+		return s == ""
+	}
+	switch p[0] {
+	case '*':
+		for k := 0; k <= len(s); k++ {
+			if verifC14Comp(p[1:], s[k:]) {
+				return true
+			}
+		}
+		return false
+	case '?':
+		return s != "" && verifC14Comp(p[1:], s[1:])
+	case '[':
+		j := 1
+		for p[j] != ']' {
+			j++
+		}
+		if s == "" {
+			return false
+		}
+		in := false
+		for k := 1; k < j; k++ {
+			if p[k] == s[0] {
+				in = true
+			}
+		}
+		return in && verifC14Comp(p[j+1:], s[1:])
+	default:
+		return s != "" && s[0] == p[0] && verifC14Comp(p[1:], s[1:])
+	}
+}
+
+// verifC14Whole matches pattern components against path components; a "**"
+// component spans zero or more directory levels.
+func verifC14Whole(pc, nc []string) bool {
+	if len(pc) == 0 {
+		return len(nc) == 0
+	}
+	if pc[0] == "**" {
+		for k := 0; k <= len(nc); k++ {
+			if verifC14Whole(pc[1:], nc[k:]) {
+				return true
+			}
+		}
+		return false
+	}
+	return len(nc) > 0 && verifC14Comp(pc[0], nc[0]) && verifC14Whole(pc[1:], nc[1:])
+}
+
+func verifC14Split(s string) []string {
+	var out []string
+	start := 0
+	for i := 0; i <= len(s); i++ {
+		if i == len(s) || s[i] == '/' {
+			out = append(out, s[start:i])
+			start = i + 1
+		}
+	}
+	return out
+}
+
+// verifC14Path generates a valid root-relative path (non-empty components, no
+// leading/trailing slash) of 1..maxlen bytes over {a, b, c, '/'}.
+func verifC14Path(maxlen int) string {
+	n := vRange(1, maxlen)
+	vLabel("path")
+	path := vString(n)
+	vLabel("")
+	for i := 0; i < n; i++ {
+		vAssume(vOr(path[i] == 'a', path[i] == 'b', path[i] == 'c', path[i] == '/'))
+		if i > 0 {
+			vAssume(!vAnd(path[i] == '/', path[i-1] == '/'))
+		}
+	}
+	vAssume(path[0] != '/')
+	vAssume(path[n-1] != '/')
+	return path
+}
+
+func VerifC14Match() {
+	text := verifC14Patterns[vChoose(len(verifC14Patterns))]
+	vNote("pattern=" + text)
+	ip, err := newIgnorePattern(text)
+	vAssert(err == nil && ip != nil, "patterns of the restricted grammar are accepted")
+	if err != nil || ip == nil {
+		return
+	}
+	path := verifC14Path(vParam("maxpath", 4))
+	vLabel("directory")
+	directory := vBool()
+	vLabel("")
+
+	got := ip.matches(path, directory)
+
+	// specification, from the pattern text
+	m := verifC14Parse(text)
+	nc := verifC14Split(path)
+	want := false
+	if m.rooted || len(m.components) > 1 {
+		// anchored at the root
+		want = verifC14Whole(m.components, nc)
+		vCover("anchored")
+	} else {
+		// no slash: the final component anywhere (a lone "**" spans everything)
+		want = verifC14Whole(m.components, nc[len(nc)-1:]) || verifC14Whole(m.components, nc)
+		vCover("leaf")
+	}
+	if m.trailing && !directory {
+		want = false
+		vCover("directory-only on a non-directory")
+	}
+	if want {
+		vCover("match")
+	} else {
+		vCover("no-match")
+	}
+	vAssert(got == want, "pattern matches exactly as the documented syntax says (anchoring, leaf matching, directory-only, '**')")
+}
